@@ -85,7 +85,9 @@ def queries(tier):
     # inproc delivers raw messages by inserting the protocol header in front of the body (nni_msg_insert)
     from props import C17
     for q in C17.queries(tier):
-        if q.name.startswith("chunk-insert"):
+        # ... and hands every receiver a message of its own (nni_msg_pull_up: also when the message is shared with another
+        # subscriber's queue and has no header at all)
+        if q.name.startswith(("chunk-insert", "chunk-pullup")):
             q.group = "~" + q.group
             qs.append(q)
     return qs
